@@ -12,7 +12,8 @@ from props import treeprog as P
 DRV = "tree"
 CRATE = "hx-run"
 
-RULE = ("(i) synthetic registries (as for C14) pushed into the global lists in random permutations; (ii) real crates using the "
+RULE = ("(o) overlapping EntryList::push calls from k threads released by a barrier (every node must be in the list exactly once); "
+        "(i) synthetic registries (as for C14) pushed into the global lists in random permutations; (ii) real crates using the "
         "attribute macros, generated from abstract programs (module trees of depth <= 4, groups with and without name/options, plain / "
         "Bencher / extern \"C\" / raw-identifier / custom-name / #[ignore] / nested-in-fn-body functions, args over 13 container "
         "expressions, types, consts literal and external, types x consts in both parameter orders, empty lists) and compiled offline "
@@ -50,10 +51,10 @@ def clash_known():
 
 
 def set_fields(o):
-    """Which option fields an opts token sets: (ignore?, sample_count?)."""
+    """Which option fields an opts token sets: (ignore?, threads?, sample_count?)."""
     if o == "-":
-        return (False, False)
-    return (o[0] in "tf", len(o) > 1)
+        return (False, False, False)
+    return (o[0] in "tf", o[1:2] == "e", len(o.replace("e", "", 1)) > 1)
 
 
 def has_clash(reg):
@@ -204,7 +205,7 @@ def prog_lines(rng, progs, per):
     cases = []
     for p in progs:
         exe = exe_path(p)
-        cases.append(p.line("DTRLA", exe, ign="y"))
+        cases.append(p.line("DOTRLA", exe, ign="y"))
         cases.append(p.line("DTRL", exe, ign="n"))
         cases.append(p.line("TR", exe, ign="o"))
         for _ in range(per):
@@ -237,6 +238,10 @@ def streams(tier, rng):
     out = []
     if corpus:
         out.append(Stream("corpus", "c12", corpus, nontrivial=nt))
+    # overlapping EntryList::push calls (threads released by a barrier): each pushed node is in the list exactly once
+    pushes = ["%d %d %d" % (t, n, r) for (t, n, r) in ([(8, 400, 6), (16, 150, 6), (4, 1500, 4), (2, 3000, 4), (12, 60, 20), (3, 10, 200)]
+                                                     * (1 if not big else 8))]
+    out.append(Stream("entry-list-push", "push", pushes, describe="k threads x n nodes x rounds of overlapping EntryList::push"))
     out.append(Stream("prefix-named-modules", "c12", prefix_named_cases(), nontrivial=nt))
     out.append(Stream("same-named-generic-fns", "c12", same_name_generic_cases(), nontrivial=nt,
                       describe="generic functions of one name nested in different fn bodies (one module path), same option fields set differently"))
@@ -255,7 +260,24 @@ def streams(tier, rng):
     return out
 
 
+def post(tier, rng, api):
+    """The push model has the store into the new node's `next` inside the CAS retry loop: pin that the code does too."""
+    try:
+        src = open(os.path.join(api["REPO"], "src", "entry", "list.rs"), encoding="utf-8").read()
+        body = src[src.index("pub fn push("):]
+        i_loop, i_store, i_cas = body.index("loop {"), body.index("other.next.store("), body.index("compare_exchange_weak(")
+        ok = i_loop < i_store < i_cas
+    except (OSError, ValueError):
+        ok = False
+    if ok:
+        return {"coverage": {"push_shape": "src/entry/list.rs push: `other.next.store(..)` is inside the retry loop, before the CAS (as in Model/ListPush.v)"}}
+    return {"problem": "src/entry/list.rs EntryList::push no longer has `other.next.store(old_next)` inside the CAS retry loop: "
+                       "Model/ListPush.v (C12_push_linearizable) does not describe this code"}
+
+
 def shrink(item, rerun):
+    if item.get("mode") == "push":
+        return item
     if " X," in item["case"]:
         return item
     from props import c14
